@@ -311,7 +311,7 @@ impl Ctx {
         self.viol_count += 1;
         let n = self.viol_keys.entry(key.to_string()).or_insert(0);
         *n += 1;
-        if *n <= 3 && self.viol_count <= 60 {
+        if *n <= 2 && self.viol_keys.len() <= 400 {
             let line = json!({
                 "t": "violation", "property": self.prop, "key": key, "what": what,
                 "kind": self.cur_kind, "idx": self.cur_idx, "case_seed": self.cur_seed.to_string(),
